@@ -9,9 +9,10 @@ fit in the receive buffer) is the outer `none` — the error branch is explicit,
 The operator is an arbitrary `op : α → α → α`; the theorems in Props.lean assume associativity (+ commutativity
 where MPI allows implementations to reorder).
 
-Part 2 (section Sched): round-based message-passing *schedules* of seven algorithms, following
+Part 2 (section Sched): round-based message-passing *schedules* of eight algorithms, following
   /repo/src/smpi/colls/bcast/bcast-binomial-tree.cpp, allreduce/allreduce-rdb.cpp, allgather/allgather-ring.cpp,
-  alltoall/alltoall-pair.cpp, reduce/reduce-flat-tree.cpp, reduce/reduce-binomial.cpp, allreduce/allreduce-lr.cpp
+  alltoall/alltoall-pair.cpp, reduce/reduce-flat-tree.cpp, reduce/reduce-binomial.cpp, allreduce/allreduce-lr.cpp,
+  allgather/allgather-bruck.cpp
 branch by branch (quoted below).  Props.lean proves them equal to the spec for every communicator size.
 The other algorithms of /repo/src/smpi/colls are NOT modelled: they are covered by the correspondence only.
 -/
@@ -417,6 +418,40 @@ def lrIter {σ : Type} (f : Nat → σ → σ) : Nat → σ → σ
 
 def allreduceLr {β : Type} (op : β → β → β) (x : Nat → Nat → β) (np : Nat) : LrState β :=
   lrIter (lrAgRound np) (np - 1) (lrIter (lrRsRound op x np) (np - 1) (lrInit x np))
+
+/-- ### allgather Bruck (allgather-bruck.cpp)
+```
+  count = recv_count;  pof2 = 1;
+  copy send_buff -> tmp_buff                                   // tmp[0] = own block
+  while (pof2 <= num_procs / 2) {
+    src = (rank + pof2) % num_procs;  dst = (rank - pof2 + num_procs) % num_procs;
+    sendrecv(tmp_buff, count -> dst;  tmp_buff + count * recv_extent, count <- src);
+    count *= 2;  pof2 *= 2; }
+  remainder = num_procs - pof2;
+  if (remainder) { src = (rank + pof2) % num_procs;  dst = (rank - pof2 + num_procs) % num_procs;
+    sendrecv(tmp_buff, remainder * recv_count -> dst;  tmp_buff + count * recv_extent, remainder * recv_count <- src); }
+  copy tmp_buff [0, num_procs - rank) -> recv_ptr + rank * recv_count …            // blocks rank … np-1
+  if (rank) copy tmp_buff [num_procs - rank, num_procs) -> recv_ptr                // blocks 0 … rank-1
+```
+State: per rank the list of blocks of `tmp_buff`.  One round: rank `r` keeps its first `pof2` blocks and receives, at
+block offset `pof2`, the first `n` blocks of `src = (r + pof2) % np`; the model checks that `src`'s destination
+`(src - pof2 + np) % np` is `r`. -/
+def bruckRound {β : Type} (np pof2 n : Nat) (st : Nat → List β) : Nat → List β := fun r =>
+  let src := (r + pof2) % np
+  if (src + np - pof2) % np = r then (st r).take pof2 ++ (st src).take n else st r
+
+/-- the `while (pof2 <= num_procs / 2)` loop; returns the final `pof2` and the state -/
+def bruckLoop {β : Type} (np : Nat) : Nat → Nat → (Nat → List β) → Nat × (Nat → List β)
+  | 0, pof2, st => (pof2, st)
+  | fuel+1, pof2, st =>
+    if pof2 ≤ np / 2 then bruckLoop np fuel (pof2 * 2) (bruckRound np pof2 pof2 st) else (pof2, st)
+
+/-- receive buffer of `rank` (one slot per rank; `none` = never written); `x r` = send buffer of rank `r` -/
+def allgatherBruck {β : Type} (x : Nat → β) (np rank : Nat) : List (Option β) :=
+  let (pof2, st) := bruckLoop np np 1 (fun r => [x r])
+  let rem := np - pof2
+  let st := if rem ≠ 0 then bruckRound np pof2 rem st else st
+  (List.range np).map fun i => if rank ≤ i then (st rank)[i - rank]? else (st rank)[np - rank + i]?
 
 end Sched
 end SgVerif.C29
